@@ -19,15 +19,22 @@ RULE = ("scenarios = one random work tree (files, nested directories, symlinks i
         "fake channel; after every request the image is snapshotted and compared with the PMS placement model (exact set of "
         "new entries, types, modes, owners, contents, link targets); PMS-forbidden requests must be refused.  Second "
         "part: get_relative_dosym_target on random absolute (target, link name) pairs, judged by the resolution law on "
-        "strings and on a real directory tree.  Non-trivial: the request creates at least one image entry or is a "
+        "strings and on a real directory tree.  Third part (every run): directed multi-step scenarios in which a later "
+        "install helper (doins, dobin, dosbin, dolib.so/.a, doexe, dodoc, doinitd, doconfd, doinfo, doins -r twice, doins of "
+        "symlinks twice, files over the links of an installed tree) targets an image path that holds a symlink (dangling "
+        "or live, relative, absolute image-style, absolute into a watched scratch directory next to the image): the "
+        "destination must become the requested file/symlink with the requested mode and nothing else may appear in "
+        "or outside the image.  Non-trivial: the request creates at least one image entry or is a "
         "PMS-mandated rejection (distinct by helper, rule, EAPI, arguments, destination state) / a pair whose answer "
         "needs '..' or shares a prefix.")
 ASSUMPTIONS = [
     "the option string per helper is the one the helper scripts in data/lib/pkgcore/ebd/helpers build (transcribed in "
     "vt/gen/c32_harness.render); bash-side gates (banned helpers, domo/into, newins) are not reachable over the fake channel",
     "placement model vt/ref/c33_placement.py transcribes PMS 12.3.3; where PMS is silent (symlink operands outside "
-    "doins EAPI>=4, multi-character man sections, dohtml directory without -r, dohtml -x, overwriting existing image "
-    "entries of another type, zero operands, empty directories) nothing is judged",
+    "doins EAPI>=4, multi-character man sections, dohtml directory without -r, dohtml -x, zero operands, empty "
+    "directories; installing over an existing directory, a directory over a non-directory, a symlink over a regular "
+    "file, a symlink-to-directory source over anything, dosym over an existing name) nothing is judged; a regular file "
+    "or a copied symlink installed over an existing image symlink replaces it (install(1) semantics, never followed)",
     "umask 022, process runs as root (owner options use numeric ids)",
     "option strings that force the external `install` fallback are exercised by C32, not here",
     "real-daemon runs of the same requests are left to the daemon harness owner",
@@ -35,7 +42,9 @@ ASSUMPTIONS = [
 SHARDS = {"quick": 4, "thorough": 16}
 TIMEOUT = {"quick": 240, "thorough": 1100}
 MIN_EVALS = 3000
-REQUIRED_COUNTERS = ("requests_judged", "verdict:ok", "verdict:reject", "relpath_pairs", "relpath_physical")
+REQUIRED_COUNTERS = ("requests_judged", "verdict:ok", "verdict:reject", "relpath_pairs", "relpath_physical",
+                     "overwrites_symlink", "overwrites_symlink:file-over-dangling-relative-link",
+                     "overwrites_symlink:file-over-dangling-absolute-link", "overwrites_symlink:link-over-dangling-relative-link")
 
 P = hx.PKG_ID
 QUIRKS = ("man-lang-regex", "html-no-filter-in-dirs", "default-insopts-lost")
@@ -72,6 +81,12 @@ def judge(ctx, sc, history, idx, rec):
     ctx.count("requests")
     ctx.count("helper:" + h)
     ctx.count("verdict:" + exp["verdict"])
+    # no request may touch anything next to the image (a dangling absolute link in the image points there)
+    ctx.evaluated()
+    o0, o1 = getattr(rec, "outside_pre", {}), getattr(rec, "outside_post", {})
+    if {k: ref._ident(v) for k, v in o0.items()} != {k: ref._ident(v) for k, v in o1.items()}:
+        ctx.violation("wrote-outside-image", witness(sc, history, idx, rec, exp, {
+            "rule": h, "outside_before": sorted(o0), "outside_after": sorted(o1)}))
     if exp["verdict"] == "unspecified":
         ctx.skip_unspecified(exp["why"].split(":")[0][:70] if exp["rule"] != "collision" else "collision with existing entry")
         return
@@ -92,6 +107,11 @@ def judge(ctx, sc, history, idx, rec):
     if exp["entries"]:
         ctx.nontrivial(key)
     ctx.count("rule:" + exp["rule"])
+    for lp in exp.get("replaces_links", ()):
+        old = rec.pre[lp]
+        ctx.count("overwrites_symlink")
+        ctx.count("overwrites_symlink:%s-over-%s-link" % (exp["entries"][lp]["type"], _link_state(lp, old, rec.pre)))
+        ctx.nontrivial(("over-link", h, lp, old["target"], exp["entries"][lp]["type"], sc.eapi))
     if outcome != "success":
         ctx.violation("valid-request-failed",
                       witness(sc, history, idx, rec, exp, {"rule": exp["rule"], "impl": outcome, "want": "success",
@@ -120,6 +140,17 @@ def judge(ctx, sc, history, idx, rec):
             ctx.violation("wrong-image-entries", w)
     elif ctx.want_sample():
         ctx.sample({"eapi": sc.eapi, "frame": rec.frame, "reply": rec.writes, "entries": _brief_exp(exp)})
+
+
+def _link_state(path, ent, snapshot):
+    """dangling / live, judged on the image snapshot (absolute targets other than '/' never exist in these workloads)."""
+    t = ent["target"]
+    if t.startswith("/"):
+        return "live" if ref.lexnorm(t) == "/" else "dangling-absolute"
+    q = posixpath.normpath(posixpath.join(posixpath.dirname(path), t))
+    if q.startswith(".."):
+        return "dangling-relative"
+    return "live" if (q in snapshot or q == ".") else "dangling-relative"
 
 
 def _brief_exp(exp):
@@ -277,6 +308,18 @@ def run(ctx):
     if not allow_chown:
         ctx.note("chown not permitted here: -o/-g install options are not generated")
     run_relpath(ctx, ctx.budget(6000, 30000), ctx.budget(300, 1500))
+    # directed: a later install helper hits an image path that holds a symlink (dangling/live, relative/absolute)
+    for i in range(ctx.budget(14, 160)):
+        want = gen.OVER_VARIANTS[(i + ctx.shard) % len(gen.OVER_VARIANTS)]
+        eapi = rng.choice(gen.EAPIS if want == "dosym-then-file" else gen.EAPIS[4:])
+        tree = gen.gen_tree(rng)
+        variant, script = gen.overwrite_script(rng, eapi, want)
+        ctx.count("directed:" + variant.split(":")[0])
+        run_scenario(ctx, base, eapi, tree, len(script), direct=(rng.random() < 0.15), fixed=script,
+                     umask=rng.choice([0o022, 0o022, 0o027]))
+        ctx.count("directed_scenarios")
+        if ctx.out_of_time(60):
+            break
     nscen = ctx.budget(90, 1000)
     for i in range(nscen):
         eapi = rng.choice(gen.EAPIS)
